@@ -45,7 +45,17 @@ class ModeEval:
         if f is None or "hir" not in f:
             raise NotComparison("unknown function %s" % fn)
         pname = f["params"][0]["name"]
-        v = self.ev(self.ctx.prog.hir(fn), {pname: mode})
+        try:
+            v = self.ev(self.ctx.prog.hir(fn), {pname: mode})
+        except (NotComparison, KeyError) as e:
+            # a predicate written with locals / a helper: read by the general finite interpreter
+            import interp
+            try:
+                v = interp.Interp(prog=self.ctx.prog, max_steps=5000).run(self.ctx.prog.hir(fn), {f["params"][0]["id"]: mode})
+            except interp.Undecided as e2:
+                raise NotComparison("%s; interpreter: %s" % (e, e2))
+            if not isinstance(v, bool):
+                raise NotComparison("%s does not yield a boolean: %r" % (fn, v))
         self.cache[key] = v
         return v
 
@@ -617,6 +627,7 @@ RULES = [
     ("C04-R7", "capability table against linux/capability.h", r7),
     ("C04-R8", "the byte count of Read::read bounds the data examined", lambda ctx: __import__("extra2").read_amount_used(ctx)),
     ("X-CONFIG", "a setting read from both configurations is the user's value when present, the built-in default otherwise [shared]", lambda ctx: __import__("extra2").user_config_wins(ctx)),
+    ("C13-R3", "time columns: accessor, conversion to local time, output format [shared with C13]", lambda ctx: __import__("c13").r3(ctx)),
 ]
 
 EXPLANATION = (
